@@ -20,7 +20,14 @@ fn ratio_class(r: U, d: U) -> &'static str {
 }
 
 pub fn step(ctx: &Ctx, w: &World, ev: &mut Ev) {
-    if w.cfg.kind != WorldKind::Standard || !ctx.out.ok {
+    if w.cfg.kind != WorldKind::Standard {
+        return;
+    }
+    if !ctx.out.ok {
+        // reach only: native calls refused for what was attached
+        if matches!(ctx.step.op, Op::Close { .. } | Op::Open { .. }) && ctx.out.err.contains("sent funds are") {
+            ev.count(&format!("refused_for_attached_funds/{}", ctx.step.op.kind()));
+        }
         return;
     }
     let d = w.d;
@@ -77,11 +84,24 @@ pub fn step(ctx: &Ctx, w: &World, ev: &mut Ev) {
                 _ => return,
             };
             let vo = &ctx.pre.vamms[v];
+            ev.count(if w.cfg.coll.is_native() { "whole_close/native" } else { "whole_close/cw20" });
             ev.eval(vo.spread > 0 || vo.toll > 0, &("close", qs == 0, qt == 0, ratio_class(vo.spread, d), ratio_class(vo.toll, d)), || {
                 json!({"close": "whole", "open_notional": pos.notional.to_string(), "quoted_spread_fee": qs.to_string(), "quoted_toll_fee": qt.to_string()})
             });
             if to_if != qs || to_fp != qt {
                 ev.violation("close_fee", if to_if != qs { "insurance_fund" } else { "fee_pool" }, json!({"to_insurance_fund": to_if.to_string(), "to_fee_pool": to_fp.to_string(), "quoted_spread": qs.to_string(), "quoted_toll": qt.to_string()}));
+            }
+            // "charges": the fee is the closing trader's to pay. Whatever left the trader's wallet in this transaction,
+            // net of what the engine paid out to them, is what they were charged - the same in both collateral kinds
+            // (cw20: pulled from the wallet; native: attached to the call).
+            let paid_out = ctx.sent(&w.addrs.engine, &actor) as i128;
+            let charged = paid_out - ctx.delta(&actor);
+            let due = (qs + qt) as i128;
+            if actor != ifund && actor != fpool && charged != due {
+                ev.count(if charged < due { "close_fee_undercharged" } else { "close_fee_overcharged" });
+                let coll = if w.cfg.coll.is_native() { "native" } else { "cw20" };
+                let shape = if charged == 0 { "nothing_charged" } else if charged < due { "undercharged" } else { "overcharged" };
+                ev.violation("close_fee_payer", &format!("{},{}", coll, shape), json!({"charged_to_trader": charged.to_string(), "quoted_spread": qs.to_string(), "quoted_toll": qt.to_string(), "paid_out": paid_out.to_string(), "attached": ctx.step.funds.to_string()}));
             }
         }
         Op::Deposit { .. } | Op::Withdraw { .. } | Op::PayFunding { .. } | Op::Liquidate { .. } => {
